@@ -1,8 +1,301 @@
-(* Lemmas about the sorted-set functions of Model/FrrRender.v (sort_k, sort_s, sort_n). *)
-From Coq Require Import String NArith Bool List Permutation Lia.
+(* Lemmas about the sorted-set functions of Model/FrrRender.v (sort_k, sort_s,
+   sort_n): membership, strict sortedness, uniqueness of the sorted duplicate-free
+   list, invariance under permutation.  Shared by C14 and C15. *)
+From Coq Require Import String Ascii NArith Bool List Permutation Sorted Lia.
 From Verif Require Import Model.FrrRender.
 Import ListNotations.
 Open Scope string_scope.
 
-Lemma sort_s_nil : sort_s [] = [].
-Proof. reflexivity. Qed.
+Lemma leb_trans a b c : String.leb a b = true -> String.leb b c = true -> String.leb a c = true.
+Proof.
+  unfold String.leb. revert b c. induction a as [|x a IH]; intros [|y b] [|z c]; simpl; try congruence.
+  unfold Ascii.compare.
+  destruct (N.compare_spec (N_of_ascii x) (N_of_ascii y)) as [E|L|G];
+  destruct (N.compare_spec (N_of_ascii y) (N_of_ascii z)) as [E2|L2|G2]; try congruence;
+  destruct (N.compare_spec (N_of_ascii x) (N_of_ascii z)) as [E3|L3|G3]; try congruence; try lia.
+  apply IH.
+Qed.
+
+Lemma leb_refl a : String.leb a a = true.
+Proof. destruct (String.leb_total a a); assumption. Qed.
+
+(* strict order on strings *)
+Definition slt (a b : string) : Prop := String.leb a b = true /\ a <> b.
+
+Lemma slt_trans a b c : slt a b -> slt b c -> slt a c.
+Proof.
+  intros [H1 N1] [H2 N2]. split; [eapply leb_trans; eauto|].
+  intros ->. apply N1. apply String.leb_antisym; assumption.
+Qed.
+
+Lemma slt_irrefl a : ~ slt a a.
+Proof. intros [_ N]; congruence. Qed.
+
+Lemma not_leb_slt a b : String.leb a b = false -> slt b a.
+Proof.
+  intros H. split.
+  - destruct (String.leb_total a b); congruence.
+  - intros ->. rewrite leb_refl in H. discriminate.
+Qed.
+
+Section SortK.
+  Context {A : Type} (key : A -> string).
+
+  Definition klt (x y : A) : Prop := slt (key x) (key y).
+  Definition ssorted (l : list A) : Prop := StronglySorted klt l.
+
+  Lemma insert_k_in x l y : In y (insert_k key x l) -> y = x \/ In y l.
+  Proof.
+    induction l as [|z l IH]; simpl.
+    - intros [<-|[]]; auto.
+    - destruct (String.leb (key x) (key z)).
+      + destruct (String.eqb (key x) (key z)); simpl; intros H; auto.
+        destruct H as [<-|H]; auto.
+      + simpl. intros [<-|H]; auto. destruct (IH H); auto.
+  Qed.
+
+  Lemma insert_k_keeps x l y : In y l -> In y (insert_k key x l).
+  Proof.
+    induction l as [|z l IH]; simpl; [tauto|].
+    destruct (String.leb (key x) (key z)).
+    - destruct (String.eqb (key x) (key z)); simpl; auto.
+    - simpl. intros [<-|H]; auto.
+  Qed.
+
+  Lemma insert_k_has x l : exists y, In y (insert_k key x l) /\ key y = key x.
+  Proof.
+    induction l as [|z l IH]; simpl.
+    - exists x; auto.
+    - destruct (String.leb (key x) (key z)).
+      + destruct (String.eqb (key x) (key z)) eqn:E.
+        * apply String.eqb_eq in E. exists z; simpl; auto.
+        * exists x; simpl; auto.
+      + destruct IH as (y & Hy & Ky). exists y; simpl; auto.
+  Qed.
+
+  Lemma sort_k_in l y : In y (sort_k key l) -> In y l.
+  Proof.
+    induction l as [|x l IH]; simpl; [tauto|].
+    intros H. apply insert_k_in in H as [->|H]; auto.
+  Qed.
+
+  Lemma sort_k_has l x : In x l -> exists y, In y (sort_k key l) /\ key y = key x.
+  Proof.
+    induction l as [|z l IH]; simpl; [tauto|].
+    intros [->|H].
+    - apply insert_k_has.
+    - destruct (IH H) as (y & Hy & Ky). exists y; split; [apply insert_k_keeps; assumption|assumption].
+  Qed.
+
+  Lemma sort_k_keys l k : In k (map key (sort_k key l)) <-> In k (map key l).
+  Proof.
+    rewrite !in_map_iff. split.
+    - intros (y & <- & H). exists y; split; [reflexivity|apply sort_k_in; assumption].
+    - intros (x & <- & H). destruct (sort_k_has l x H) as (y & Hy & Ky). exists y; auto.
+  Qed.
+
+  Lemma insert_k_sorted x l : ssorted l -> ssorted (insert_k key x l).
+  Proof.
+    unfold ssorted. induction l as [|z l IH]; simpl; intros H.
+    - constructor; constructor.
+    - inversion H as [|? ? Hs Hf]; subst.
+      destruct (String.leb (key x) (key z)) eqn:L.
+      + destruct (String.eqb (key x) (key z)) eqn:E; [assumption|].
+        apply String.eqb_neq in E.
+        assert (Hxz: klt x z) by (split; assumption).
+        constructor; [assumption|]. constructor; [assumption|].
+        rewrite Forall_forall in *. intros w Hw. eapply slt_trans; [exact Hxz|apply Hf; assumption].
+      + constructor; [apply IH; assumption|].
+        rewrite Forall_forall in *. intros w Hw. apply insert_k_in in Hw as [->|Hw].
+        * apply not_leb_slt; assumption.
+        * apply Hf; assumption.
+  Qed.
+
+  Lemma sort_k_sorted l : ssorted (sort_k key l).
+  Proof.
+    induction l as [|x l IH]; simpl; [constructor|]. apply insert_k_sorted; assumption.
+  Qed.
+
+  Lemma ssorted_nodup_keys l : ssorted l -> NoDup (map key l).
+  Proof.
+    induction 1 as [|x l Hs IH Hf]; simpl; constructor; [|assumption].
+    rewrite in_map_iff. intros (y & E & Hy). rewrite Forall_forall in Hf.
+    specialize (Hf y Hy). unfold klt in Hf. rewrite E in Hf. exact (slt_irrefl _ Hf).
+  Qed.
+
+  (* two strictly sorted lists with the same keys have the same key sequence *)
+  Lemma ssorted_keys_unique l1 l2 :
+    ssorted l1 -> ssorted l2 -> (forall k, In k (map key l1) <-> In k (map key l2)) -> map key l1 = map key l2.
+  Proof.
+    intros H1; revert l2. induction H1 as [|x l1 Hs1 IH Hf1]; intros l2 H2 Heq.
+    - destruct l2 as [|y l2]; [reflexivity|]. exfalso. apply (proj2 (Heq (key y))). simpl; auto.
+    - destruct l2 as [|y l2].
+      + exfalso. apply (proj1 (Heq (key x))). simpl; auto.
+      + inversion H2 as [|? ? Hs2 Hf2]; subst. rewrite Forall_forall in Hf1, Hf2.
+        assert (Exy: key x = key y).
+        { destruct (proj1 (Heq (key x)) (or_introl eq_refl)) as [E|Hin]; [congruence|].
+          destruct (proj2 (Heq (key y)) (or_introl eq_refl)) as [E|Hin2]; [congruence|].
+          exfalso. apply in_map_iff in Hin as (w & Ew & Hw). apply in_map_iff in Hin2 as (v & Ev & Hv).
+          pose proof (Hf2 w Hw) as A1. pose proof (Hf1 v Hv) as A2. unfold klt in *.
+          rewrite Ew in A1. rewrite Ev in A2. exact (slt_irrefl _ (slt_trans _ _ _ A1 A2)). }
+        simpl. rewrite Exy. f_equal. apply IH; [assumption|].
+        intros k. split; intros Hk.
+        * destruct (proj1 (Heq k) (or_intror Hk)) as [E|?]; [|assumption].
+          exfalso. apply in_map_iff in Hk as (w & Ew & Hw). pose proof (Hf1 w Hw) as A1. unfold klt in A1.
+          rewrite Ew, <- E, Exy in A1. exact (slt_irrefl _ A1).
+        * destruct (proj2 (Heq k) (or_intror Hk)) as [E|?]; [|assumption].
+          exfalso. apply in_map_iff in Hk as (w & Ew & Hw). pose proof (Hf2 w Hw) as A1. unfold klt in A1.
+          rewrite Ew, <- E, Exy in A1. exact (slt_irrefl _ A1).
+  Qed.
+
+  (* two strictly sorted lists with the same elements are equal *)
+  Lemma ssorted_unique l1 l2 :
+    ssorted l1 -> ssorted l2 -> (forall x, In x l1 <-> In x l2) -> l1 = l2.
+  Proof.
+    intros H1; revert l2. induction H1 as [|x l1 Hs1 IH Hf1]; intros l2 H2 Heq.
+    - destruct l2 as [|y l2]; [reflexivity|]. exfalso. apply (proj2 (Heq y)). simpl; auto.
+    - destruct l2 as [|y l2].
+      + exfalso. apply (proj1 (Heq x)). simpl; auto.
+      + inversion H2 as [|? ? Hs2 Hf2]; subst. rewrite Forall_forall in Hf1, Hf2.
+        assert (Exy: x = y).
+        { destruct (proj1 (Heq x) (or_introl eq_refl)) as [E|Hin]; [congruence|].
+          destruct (proj2 (Heq y) (or_introl eq_refl)) as [E|Hin2]; [congruence|].
+          exfalso. exact (slt_irrefl _ (slt_trans _ _ _ (Hf2 x Hin) (Hf1 y Hin2))). }
+        subst y. f_equal. apply IH; [assumption|].
+        intros u. split; intros Hu.
+        * destruct (proj1 (Heq u) (or_intror Hu)) as [E|?]; [|assumption].
+          exfalso. subst u. exact (slt_irrefl _ (Hf1 x Hu)).
+        * destruct (proj2 (Heq u) (or_intror Hu)) as [E|?]; [|assumption].
+          exfalso. subst u. exact (slt_irrefl _ (Hf2 x Hu)).
+  Qed.
+
+  Definition key_inj (l : list A) : Prop := forall x y, In x l -> In y l -> key x = key y -> x = y.
+
+  Lemma sort_k_in_iff l y : key_inj l -> (In y (sort_k key l) <-> In y l).
+  Proof.
+    intros Hinj. split; [apply sort_k_in|].
+    intros Hy. destruct (sort_k_has l y Hy) as (z & Hz & Kz).
+    assert (z = y) by (apply Hinj; [apply sort_k_in; assumption|assumption|assumption]). subst z. assumption.
+  Qed.
+
+  Lemma sort_k_perm l l' : key_inj l -> Permutation l l' -> sort_k key l = sort_k key l'.
+  Proof.
+    intros Hinj Hp.
+    assert (Hinj': key_inj l').
+    { intros x y Hx Hy. apply Hinj; eapply Permutation_in; try eassumption; apply Permutation_sym; assumption. }
+    apply ssorted_unique; try apply sort_k_sorted.
+    intros x. rewrite (sort_k_in_iff l x Hinj), (sort_k_in_iff l' x Hinj').
+    split; apply Permutation_in; [assumption|apply Permutation_sym; assumption].
+  Qed.
+End SortK.
+
+(* ---- strings ---- *)
+Lemma sort_s_in l x : In x (sort_s l) <-> In x l.
+Proof.
+  unfold sort_s. apply sort_k_in_iff. intros a b _ _ E; exact E.
+Qed.
+
+Lemma sort_s_sorted l : StronglySorted slt (sort_s l).
+Proof. exact (sort_k_sorted (fun s => s) l). Qed.
+
+Lemma sort_s_nodup l : NoDup (sort_s l).
+Proof.
+  pose proof (ssorted_nodup_keys (fun s : string => s) _ (sort_k_sorted (fun s => s) l)) as H.
+  rewrite map_id in H. exact H.
+Qed.
+
+Lemma sort_s_perm l l' : Permutation l l' -> sort_s l = sort_s l'.
+Proof. apply sort_k_perm. intros a b _ _ E; exact E. Qed.
+
+Lemma sort_s_ext l l' : (forall x, In x l <-> In x l') -> sort_s l = sort_s l'.
+Proof.
+  intros H. apply (ssorted_unique (fun s => s)); try apply sort_k_sorted.
+  intros x. fold (sort_s l) (sort_s l'). rewrite !sort_s_in. apply H.
+Qed.
+
+(* ---- numbers ---- *)
+Lemma insert_n_in x l y : In y (insert_n x l) <-> y = x \/ In y l.
+Proof.
+  induction l as [|z l IH]; simpl; [intuition|].
+  destruct (N.leb x z) eqn:L.
+  - destruct (N.eqb x z) eqn:E; simpl; [|intuition].
+    apply N.eqb_eq in E. subst. intuition.
+  - simpl. rewrite IH. intuition.
+Qed.
+
+Lemma sort_n_in l x : In x (sort_n l) <-> In x l.
+Proof.
+  induction l as [|z l IH]; simpl; [tauto|]. rewrite insert_n_in, IH. intuition.
+Qed.
+
+Lemma insert_n_sorted x l : StronglySorted N.lt l -> StronglySorted N.lt (insert_n x l).
+Proof.
+  induction l as [|z l IH]; simpl; intros H.
+  - constructor; constructor.
+  - inversion H as [|? ? Hs Hf]; subst. rewrite Forall_forall in Hf.
+    destruct (N.leb x z) eqn:L.
+    + destruct (N.eqb x z) eqn:E; [assumption|].
+      apply N.leb_le in L. apply N.eqb_neq in E.
+      constructor; [assumption|]. constructor; [lia|].
+      rewrite Forall_forall. intros w Hw. specialize (Hf w Hw). lia.
+    + apply N.leb_gt in L. constructor; [apply IH; assumption|].
+      rewrite Forall_forall. intros w Hw. apply insert_n_in in Hw as [->|Hw]; [assumption|apply Hf; assumption].
+Qed.
+
+Lemma sort_n_sorted l : StronglySorted N.lt (sort_n l).
+Proof. induction l as [|x l IH]; simpl; [constructor|apply insert_n_sorted; assumption]. Qed.
+
+(* ---- all_some ---- *)
+Lemma all_some_in {A} (l : list (option A)) r x : all_some l = Some r -> In x r -> In (Some x) l.
+Proof.
+  revert r; induction l as [|[y|] l IH]; simpl; intros r H Hx; try discriminate.
+  - inversion H; subst. contradiction.
+  - destruct (all_some l) as [r'|]; [|discriminate]. inversion H; subst.
+    destruct Hx as [->|Hx]; [left; reflexivity|right; eapply IH; eauto].
+Qed.
+
+Lemma all_some_has {A} (l : list (option A)) r x : all_some l = Some r -> In (Some x) l -> In x r.
+Proof.
+  revert r; induction l as [|[y|] l IH]; simpl; intros r H Hx; try discriminate; [contradiction|].
+  destruct (all_some l) as [r'|]; [|discriminate]. inversion H; subst.
+  destruct Hx as [E|Hx]; [inversion E; left; reflexivity|right; eapply IH; eauto].
+Qed.
+
+Lemma all_some_none {A} (l : list (option A)) r : all_some l = Some r -> ~ In None l.
+Proof.
+  revert r; induction l as [|[y|] l IH]; simpl; intros r H; try discriminate; [tauto|].
+  destruct (all_some l) as [r'|]; [|discriminate]. intros [E|Hn]; [discriminate|]. eapply IH; eauto.
+Qed.
+
+Lemma all_some_ext {A B} (f g : A -> option B) l : (forall x, In x l -> f x = g x) -> all_some (map f l) = all_some (map g l).
+Proof.
+  induction l as [|x l IH]; simpl; intros H; [reflexivity|].
+  rewrite (H x (or_introl eq_refl)), IH; [reflexivity|]. intros y Hy; apply H; right; assumption.
+Qed.
+
+(* ---- sorted prefix sets ---- *)
+Definition exact_pfx_set (ps : list pfx) (src : list pfx) : Prop :=
+  ssorted p_text ps /\ NoDup (map p_text ps) /\
+  (forall p, In p ps -> In p src) /\
+  (forall q, In q src -> exists p, In p ps /\ p_text p = p_text q).
+
+Lemma sort_k_exact l : exact_pfx_set (sort_k p_text l) l.
+Proof.
+  split; [apply sort_k_sorted|]. split; [apply ssorted_nodup_keys, sort_k_sorted|].
+  split; [intros p; apply sort_k_in|intros q; apply sort_k_has].
+Qed.
+
+
+Lemma sessions_with_in k v S s : In s (sessions_with k v S) <-> In s S /\ k s = v.
+Proof. unfold sessions_with. rewrite filter_In, String.eqb_eq. tauto. Qed.
+
+
+Lemma filter_perm {A} (f : A -> bool) l l' : Permutation l l' -> Permutation (filter f l) (filter f l').
+Proof.
+  induction 1; simpl.
+  - constructor.
+  - destruct (f x); [constructor|]; assumption.
+  - destruct (f x), (f y); try apply perm_swap; apply Permutation_refl.
+  - eapply Permutation_trans; eassumption.
+Qed.
+
